@@ -60,6 +60,8 @@ class _H111(TermHooks):
             return Term('effect', *args)
         if isinstance(func, Ext) and func.name == 'numpy.random.default_rng':
             return Term('fresh_rng', *args)
+        if isinstance(func, Ext) and func.name in ('numpy.zeros_like', 'numpy.zeros') and args:
+            return Term('zeros')                      # a zero vector (not the error, not the correction)
         return super().call(it, func, args, kwargs, node, env)
 
     def attr(self, it, obj, name, node):
@@ -76,17 +78,45 @@ class _OMeth:
 
 
 def run_once_keys(ctx: Ctx):
-    mi, fn = ctx.model.func('panqec.simulation._direct_simulation', 'run_once')
-    for n in ast.walk(fn):
-        if isinstance(n, ast.Return) and isinstance(n.value, ast.Name):
-            var = n.value.id
-            for a in ast.walk(fn):
-                if isinstance(a, ast.Assign) and isinstance(a.targets[0], ast.Name) and a.targets[0].id == var \
-                        and isinstance(a.value, ast.Dict):
-                    return [k.value for k in a.value.keys if isinstance(k, ast.Constant)]
-        if isinstance(n, ast.Return) and isinstance(n.value, ast.Dict):
-            return [k.value for k in n.value.keys if isinstance(k, ast.Constant)]
-    raise AnalysisError('R11.1', site_of(mi, fn), 'run_once: returned dictionary literal not found')
+    """Keys of the dictionary run_once returns: a literal (returned directly or through one local), `**` of the
+    dictionary a helper of the same module returns included."""
+    modname = 'panqec.simulation._direct_simulation'
+    mi, fn = ctx.model.func(modname, 'run_once')
+
+    def dict_of(f, depth=0):
+        for n in ast.walk(f):
+            if not isinstance(n, ast.Return) or n.value is None:
+                continue
+            d = n.value
+            if isinstance(d, ast.Name):
+                defs = [a.value for a in ast.walk(f) if isinstance(a, ast.Assign) and isinstance(a.targets[0], ast.Name)
+                        and a.targets[0].id == d.id]
+                d = defs[0] if len(defs) == 1 else None
+            if isinstance(d, ast.Dict):
+                return d
+        return None
+
+    def keys_of(d, depth=0):
+        out = []
+        for k, v in zip(d.keys, d.values):
+            if isinstance(k, ast.Constant):
+                out.append(k.value)
+            elif k is None and isinstance(v, ast.Call) and isinstance(v.func, ast.Name) and depth < 2:
+                try:
+                    _, f2 = ctx.model.func(modname, v.func.id)
+                except Exception:
+                    raise AnalysisError('R11.1', site_of(mi, fn), f'run_once: **{v.func.id}(...) not resolved')
+                d2 = dict_of(f2)
+                if d2 is None:
+                    raise AnalysisError('R11.1', site_of(mi, fn), f'run_once: dictionary returned by {v.func.id} not found')
+                out += keys_of(d2, depth + 1)
+            else:
+                raise AnalysisError('R11.1', site_of(mi, fn), 'run_once: returned dictionary has computed keys')
+        return out
+    d = dict_of(fn)
+    if d is None:
+        raise AnalysisError('R11.1', site_of(mi, fn), 'run_once: returned dictionary literal not found')
+    return keys_of(d)
 
 
 def _r111(ctx: Ctx) -> None:
@@ -150,9 +180,12 @@ def _r111(ctx: Ctx) -> None:
                bad is None, bad or '', key=f'run_once|pipeline[{given}]',
                facts={k: repr(v) for k, v in rets[0].value[0].items()} if isinstance(rets[0].value[0], dict) else None)
     # recorded success = codespace and no logical effect (same evaluation as C04 R04.1)
-    from .c04 import _classify_def, _table_with_effect_terms
+    from .c04 import _classify_def, _table_with_effect_terms, home_of
     kinds = {}
     target = None
+    mi, fn = home_of(m, 'panqec.simulation._direct_simulation', mi, fn, lambda f: any(
+        isinstance(n, ast.Dict) and any(isinstance(k, ast.Constant) and k.value == 'success' for k in n.keys)
+        for n in ast.walk(f)))
     for n in ast.walk(fn):
         if isinstance(n, ast.Assign) and len(n.targets) == 1 and isinstance(n.targets[0], ast.Name):
             k = _classify_def(ctx, mi, n.value, kinds)
@@ -176,6 +209,7 @@ def _r111(ctx: Ctx) -> None:
     ctx.ob('R11.1', site_of(mi, expr), 'run_once: recorded success <=> codespace and zero effective error', oks,
            f'table (A=codespace, B=logical effect) -> success: {sorted(table.items())}', key='run_once|success')
     # error rate validated
+    mi, fn = m.func('panqec.simulation._direct_simulation', 'run_once')
     guards = [n for n in ast.walk(fn) if isinstance(n, ast.If) and any(isinstance(s, ast.Raise) for s in n.body)
               and 'error_rate' in ast.unparse(n.test)]
     ctx.ob('R11.1', site, 'run_once rejects error rates outside [0, 1]', len(guards) >= 1,
